@@ -263,11 +263,11 @@ def o_close_offsets(case):
             if r:
                 return 'close:offset:setter-table:' + tag, 'PSK(%d, %r) then setPhaseOffset %s: %s' % (
                     M, phi, [phi2, phi, phi2][:step + 1], r)
-            fresh = f.PSK(M, 1.0)
+            fresh = f.PSK(M, 0.123456789)
             fresh.setPhaseOffset(ph)
             if not np.array_equal(tab, np.asarray(fresh.symbols)):
                 return 'close:offset:setter-vs-fresh:' + tag, \
-                    'PSK(%d, %r) then setPhaseOffset %s: table differs from PSK(%d, 1.0) + setPhaseOffset(%r)' % (
+                    'PSK(%d, %r) then setPhaseOffset %s: table differs from PSK(%d, 0.123456789) + setPhaseOffset(%r)' % (
                         M, phi, [phi2, phi, phi2][:step + 1], M, ph)
             if not np.array_equal(np.asarray(o.demodulate(np.asarray(o.modulate(idx)))), idx):
                 return 'close:offset:roundtrip:' + tag, 'round trip after setPhaseOffset(%r)' % ph
@@ -301,6 +301,7 @@ def o_reuse(case):
     m = build(case)
     rx = np.empty(shape, dtype=float if bpsk else complex)
     ix = np.empty(shape, dtype=int)
+    lst = []                 # ONE python list of indexes, refilled in place (lst[:] = ...)
     offset = None
     kept = []
     who = ('GEN:' if case.get('generic') else '') + kind
@@ -331,6 +332,16 @@ def o_reuse(case):
             twin = np.asarray(fresh.modulate(contents.copy()))
             want = (1 - 2 * contents) if bpsk else sym[contents]
             ok_first = np.array_equal(np.asarray(out), want)
+            if not bpsk:         # (BPSK.modulate compares `inputData > 1`: python lists are not an accepted form there)
+                lst[:] = contents.ravel().tolist()
+                lout = np.asarray(m.modulate(lst))
+                if not np.array_equal(lout, want.ravel()):
+                    return 'reuse:stale-result:mod-list:%s' % who, \
+                        '%s call #%d: modulate(list refilled in place) is not the table entries of its contents' % (who, n + 1)
+                if lst != contents.ravel().tolist():
+                    return 'reuse:argument-modified:mod-list:%s' % who, 'modulate changed the list it was given'
+                kept.append(('%s call #%d (mod, list)' % (who, n + 1), lout, np.array(lout, copy=True)))
+                lst[:] = [0] * len(lst)
         call = '%s call #%d (%s)' % (who, n + 1, step['op'])
         if np.shape(out) != shape or not np.array_equal(np.asarray(out), twin):
             return 'reuse:stale-result:%s:%s' % (step['op'], who), \
@@ -461,12 +472,13 @@ def pairs_json(pairs):
     return [[[a.real, a.imag], [c.real, c.imag]] for a, c in pairs]
 
 
-def sample_mods(ctx, rng):
+def sample_mods(ctx, rng, deep=None):
     """(kind, M, phase, via) for the R15 sample streams"""
+    deep = ctx.tier == 'thorough' if deep is None else deep
     out = [('QPSK', 4, 0.0, None), ('PSK', 2, 0.0, None), ('PSK', 2, 1e-9, None), ('PSK', 4, 0.0, None),
            ('PSK', 8, rng.uniform(-7, 7), None), ('PSK', 8, 1e-12, 'setter'), ('PSK', 16, rng.uniform(-7, 7), 'setter'),
            ('QAM', 4, 0.0, None), ('QAM', 16, 0.0, None), ('QAM', 64, 0.0, None)]
-    if ctx.tier == 'thorough':
+    if deep:
         out += [('PSK', 32, rng.uniform(-7, 7), None), ('PSK', 64, 1e-9, None), ('PSK', 256, 0.0, None),
                 ('PSK', 1024, rng.uniform(-7, 7), None), ('QAM', 256, 0.0, None), ('QAM', 1024, 0.0, None)]
     else:
@@ -474,18 +486,19 @@ def sample_mods(ctx, rng):
     return out
 
 
-def reuse_cases(ctx, rng):
+def reuse_cases(ctx, rng, deep=None):
     """R16 histories of 2–4 calls for every object kind (+ the generic Modulator with a copied table)"""
     b = B()
+    deep = ctx.tier == 'thorough' if deep is None else deep
     out = []
     kinds = [('BPSK', 2, 0.0, False), ('QPSK', 4, 0.0, False), ('PSK', 8, rng.uniform(-7, 7), False),
              ('QAM', 16, 0.0, False), ('QAM', 16, 0.0, True), ('PSK', 4, 0.3, True), ('PSK', 2, 0.0, False),
              ('QAM', 64, 0.0, False)]
-    if ctx.tier == 'thorough':
+    if deep:
         kinds += [(k, M, rng.uniform(-7, 7) if k == 'PSK' else 0.0, rng.chance(0.3))
                   for k, M in (('PSK', 16), ('PSK', 64), ('QAM', 4), ('QAM', 256), ('PSK', 32), ('QPSK', 4), ('BPSK', 2)) for _ in range(6)]
     for kind, M, phase, generic in kinds:
-        for variant in range(2 if ctx.tier == 'quick' else 4):
+        for variant in range(4 if deep else 2):
             shape = [[6], [2, 3], [3, 1, 2], [1, 6]][(variant + M) % 4]
             n = int(np.prod(shape))
             sym = np.asarray(b.make_mod(kind, M, phase).symbols, dtype=complex)
@@ -521,12 +534,29 @@ ALIAS_CASE = {'table': [[1.0, 1.0], [-1.0, 1.0], [-1.0, -1.0], [1.0, -1.0]],
               'samples': [[0.5, 0.75], [-2.0, 0.25], [-0.125, -3.0], [1.5, -0.5]]}
 
 
-def oracles(ctx):
+def corpus_cases():
+    """corpus/c01/*.json: minimised inputs that separated earlier property-breaking edits; replayed on every run"""
+    import json
+    import os
+    d = os.path.join(core.VERIF, 'corpus', 'c01')
+    out = []
+    if os.path.isdir(d):
+        for fn in sorted(os.listdir(d)):
+            if fn.endswith('.json'):
+                with open(os.path.join(d, fn)) as fh:
+                    out += json.load(fh)
+    return out
+
+
+def oracles(ctx, deep=None, stream='oracles'):
     b = B()
-    rng = core.Rng(ctx.seed, 'C01/robust/oracles')
-    quick = ctx.tier == 'quick'
+    for n, rec in enumerate(corpus_cases()):
+        run(ctx, rec['call'], rec['case'], ('corpus', n), 'oracle:corpus:' + rec['class'])
+    rng = core.Rng(ctx.seed, 'C01/robust/' + stream)
+    deep = ctx.tier == 'thorough' if deep is None else deep
+    quick = not deep
     # ---- R15 samples
-    for kind, M, phase, via in sample_mods(ctx, rng):
+    for kind, M, phase, via in sample_mods(ctx, rng, deep):
         case0 = {'kind': kind, 'M': M, 'phase': phase, 'via': via}
         sym = np.asarray(build(case0).symbols, dtype=complex)
         tags = ['bisector', 'tiny', 'large', 'adjacent'] if M <= 16 else ['bisector', 'large', 'adjacent']
@@ -554,7 +584,7 @@ def oracles(ctx):
         for M in (4 ** 6 - 1, 4 ** 6 + 1, 2 * 4 ** 6, 4 ** 7 - 1, 4 ** 7, 4 ** 7 + 1, 4 ** 8 + 1, 4 ** 10 - 1, 4 ** 10 + 1):
             run(ctx, 'constructor', {'kind': 'QAM', 'M': M}, ('close-qam', M), 'oracle:R15:constructor')
     # ---- R16
-    for case in reuse_cases(ctx, rng):
+    for case in reuse_cases(ctx, rng, deep):
         who = ('GEN' if case['generic'] else case['kind'])
         run(ctx, 'reuse', case, ('reuse', who, case['kind'], case['M'], tuple(case['shape']), len(case['steps'])),
             'oracle:R16:buffer-refilled:' + who)
@@ -632,7 +662,12 @@ def correspondence(ctx):
                  nontrivial=bool(apart), key=('close-table', M, n))
         if apart:
             ctx.branch('corr:R15:offset-table')
-    # ---- R16: histories on ONE object with ONE array per role, against the object-with-caller-arrays model
+    # ---- R16: histories on ONE object with ONE array per role, against the object-with-caller-arrays model.
+    # `setConstellation` is modelled as the code that exists (`S`: the caller's array is kept — the known finding
+    # the oracle reports) unless the real method is observed not to keep it (`C`: the repair, a copy); whichever
+    # it is, the whole history must follow that one semantics
+    r = o_set_constellation_argument(ALIAS_CASE)
+    SC = 'S' if (r is not None and r[0] == 'setConstellation-keeps-argument') else 'C'
     cases = reuse_cases(ctx, rng)
     runs = []
     lines = []
@@ -655,7 +690,7 @@ def correspondence(ctx):
         words = ['T=' + b.pts_rat(m.symbols)]
         if case['generic']:
             # the generic modulator was given a caller's array: say so to the model (array 9, never refilled)
-            words = ['F9=' + b.pts_rat(m.symbols), 'S9']
+            words = ['F9=' + b.pts_rat(m.symbols), SC + '9']
         rx = np.empty(shape, dtype=float if bpsk else complex)
         ix = np.empty(shape, dtype=int)
         outs = []
@@ -664,7 +699,7 @@ def correspondence(ctx):
                 if case['generic']:
                     t = np.array(build(dict(case, generic=False), step['phase']).symbols)
                     m.setConstellation(t)
-                    words += ['F8=' + b.pts_rat(t), 'S8']
+                    words += ['F8=' + b.pts_rat(t), SC + '8']
                 else:
                     m.setPhaseOffset(step['phase'])
                     words.append('T=' + b.pts_rat(m.symbols))
@@ -704,15 +739,18 @@ def correspondence(ctx):
     outs.append(b.pts_rat(g.modulate(np.array([0, 3]))))
     g.setConstellation(np.array(t1))
     outs.append(','.join(str(int(v)) for v in g.demodulate(zs)))
-    lines.append('arun F5=%s S5 F0=%s D0 F5=%s D0 I0=0,3 M0 F6=%s S6 D0' % (b.pts_rat(t1), b.pts_rat(zs), b.pts_rat(t2), b.pts_rat(t1)))
+    lines.append('arun F5=%s %s5 F0=%s D0 F5=%s D0 I0=0,3 M0 F6=%s %s6 D0' % (
+        b.pts_rat(t1), SC, b.pts_rat(zs), b.pts_rat(t2), b.pts_rat(t1), SC))
     rep = drv.ask(lines)
     for (case, impl), model in zip(runs, rep[:-1]):
         who = 'GEN' if case['generic'] else case['kind']
         ctx.corr('history.refilled-arrays', case, impl, model,
                  key=('reuse', who, case['kind'], case['M'], tuple(case['shape']), len(case['steps'])))
         ctx.branch('corr:R16:buffer-refilled:' + who)
-    ctx.corr('history.setConstellation-keeps-argument', ALIAS_CASE, ';'.join(outs), rep[-1], key=('alias-corr',))
-    ctx.branch('corr:R16:setConstellation-keeps-argument')
+    ctx.corr('history.setConstellation-argument', dict(ALIAS_CASE, model='keeps' if SC == 'S' else 'copies'),
+             ';'.join(outs), rep[-1], key=('alias-corr',))
+    ctx.branch('corr:R16:setConstellation-argument')
+    ctx.branch('corr:R16:setConstellation-%s-argument' % ('keeps' if SC == 'S' else 'copies'))
 
 
 REQUIRED = ['oracle:R15:sample-pair:bisector', 'oracle:R15:sample-pair:tiny', 'oracle:R15:sample-pair:large',
@@ -725,4 +763,12 @@ REQUIRED = ['oracle:R15:sample-pair:bisector', 'oracle:R15:sample-pair:tiny', 'o
 REQUIRED_CORR = ['corr:R15:close-pair:bisector', 'corr:R15:close-pair:tiny', 'corr:R15:close-pair:large',
                  'corr:R15:close-pair:decisions-differ', 'corr:R15:offset-table',
                  'corr:R16:buffer-refilled:BPSK', 'corr:R16:buffer-refilled:QPSK', 'corr:R16:buffer-refilled:PSK',
-                 'corr:R16:buffer-refilled:QAM', 'corr:R16:buffer-refilled:GEN', 'corr:R16:setConstellation-keeps-argument']
+                 'corr:R16:buffer-refilled:QAM', 'corr:R16:buffer-refilled:GEN', 'corr:R16:setConstellation-argument']
+
+
+def search(ctx):
+    """failing-input search when a proof / correspondence broke: the thorough scenario sets on fresh streams"""
+    for k in range(2):
+        oracles(ctx, deep=True, stream='search%d' % k)
+        if any(f['call'] != 'setConstellation.argument' for f in ctx.failures):
+            return
